@@ -1,8 +1,9 @@
 import Ogen.Norm_feasibility
 import Ogen.UriCodecLib
 import Ogen.JsonPointer_driver
-import Ogen.JsonEqual_feasibility
+
 import Ogen.RegexConvert_feasibility
+import Ogen.JsonEqualDriver
 
 /-! Line-protocol driver over all executable models: `<model> <payload>` per line, one
     canonical output line per input line. Core-only (no Mathlib) so it links natively. -/
@@ -24,8 +25,10 @@ def dispatch (line : String) : String :=
     | "nbyte" => Norm.byteLine payload
     | "codec" => Codec.runLine payload
     | "ptr" => Ptr.runLine payload
-    | "jeq" => JEq.runLine payload
+
     | "conv" => convLine payload
+    | "jeq" => JEqDrv.runLine payload
+    | "enum" => JEqDrv.enumLine payload
     | _ => "bad-model"
 
 partial def loop (h : IO.FS.Stream) (out : IO.FS.Stream) : IO Unit := do
